@@ -501,8 +501,8 @@ def check_behaviour(w, failures, step, desc):
             except yaml.YAMLError:
                 out = "error"
             except Exception as e:
-                # e.g. a diamond of a LibYAML and a pure-Python dumper cannot be instantiated: nothing to probe
-                continue
+                failures.append(Failure("probe-dump-raised:%s" % exc_key(e), "%s() on %s: %s" % (typ.__name__, cls.__name__, exc_msg(e))))
+                return evals
             try:
                 out_all = yaml.dump_all([typ()], Dumper=cls)
             except yaml.YAMLError:
@@ -564,7 +564,8 @@ def check_behaviour(w, failures, step, desc):
                 out = yaml.serialize(node, Dumper=cls)
                 out_all = yaml.serialize_all([node], Dumper=cls)
             except Exception as e:
-                continue        # a diamond of a LibYAML and a pure-Python dumper cannot be instantiated
+                failures.append(Failure("probe-serialize-raised:%s" % exc_key(e), "%r on %s: %s" % (text, cls.__name__, exc_msg(e))))
+                return evals
             plain = out.startswith(text)
             if out_all != out or plain != (want == "tag:yaml.org,2002:str"):
                 failures.append(Failure("behaviour:implicit-resolver:serialize", "after step %d (%s): %s serializes the !!str node %r as %r (serialize_all: %r); the rule says the class resolves that text to %r" % (
